@@ -1,6 +1,6 @@
 """C01 — checker soundness.
 
-proof : coq/Props/C01.v  (C01_soundness_partial, C01_instances, C01_rules, C01_unguarded_refuted)
+proof : coq/Props/C01.v  (C01_soundness, C01_instances, C01_rules, C01_unguarded_refuted)
 tie   : Rust checker (scratch build of the current lib.rs) vs extracted coq/ML model (guards_sound)
 oracle: finite-model evaluation of every term the *Rust* checker marks Proved from an empty theory
 """
@@ -32,22 +32,16 @@ def run(tier, seed):
     labels = [c[1] for c in cases]
     m, r = tie.compare(lines, labels)
 
-    # how many accepted streams fall inside the proved fragment (ESubst instruction with EVar plugs only)
-    evp = C.run_lines_parallel(tie.mlref, lines, args=('--guards', 'evp'))
-    inside = outside = 0
+    general_plugs = 0
     # oracle on what Rust accepted
     found = []
     budget_tries = 24 if (P['ok'] and not tie.mismatches) else 120
     seen_terms = set()
-    for ln, lab, ro, eo in zip(lines, labels, r, evp):
+    for ln, lab, ro in zip(lines, labels, r):
         acc = ro.startswith('ACCEPT') or ro.startswith('OK')
         R.case(ln, nontrivial=acc and any(op in ln for op in ('15', '16', '18', '1a')), kind=lab.split(':')[0] + (':acc' if acc else ':rej'))
         if not acc:
             continue
-        if eo == ro:
-            inside += 1
-        else:
-            outside += 1
         f = ln.split()
         from_empty_theory = (f[0] == 'E' and f[1] == 'P') or (f[0] == 'V' and f[1] == '-')
         if not from_empty_theory:
@@ -72,8 +66,7 @@ def run(tier, seed):
                     {'request': ln, 'label': lab, 'proved_pattern': G.show(t), 'pattern_hex': G.phex(t), 'countermodel': cm})
     for c in cases[:3] + cases[500:503]:
         R.sample({'request': c[0], 'label': c[1]})
-    R.hist['accepted_inside_proved_fragment(plugs_evar)'] = inside
-    R.hist['accepted_outside_proved_fragment'] = outside
+    R.hist['proved_terms_with_general_plug_esubst_nodes'] = sum(1 for t in seen_terms if T.has_general_esubst(t))
     R.hist['distinct_proved_terms_evaluated_in_finite_models'] = len(seen_terms)
 
     if tie.mismatches and not R.violations:
@@ -95,8 +88,8 @@ def run(tier, seed):
                           '(incl. the D1 exploit); non-trivial = accepted by the Rust checker and containing a rule instruction '
                           '(ModusPonens/Generalization/Substitution/Instantiate); distinct by request line')
     R.coverage['traces_validated_against_impl'] = len(lines)
-    R.assumptions = ['theorem proved for streams whose ESubst instructions have element-variable plugs (plugs_evar); '
-                     'fraction of accepted generated streams inside that fragment is in histogram']
+    R.assumptions = ['validity = truth in every model under every semantic valuation of opaque nodes (metavariables, general-plug ESubst) '
+                     'respecting their judged freshness; the finite-model search uses constant atoms']
     return R.finish(trusted_base=C.TRUSTED_COMMON + [
         'Axiom Classical_Prop.classic (Coq standard library; used only for Prop3, double-negation elimination over sets D -> Prop)',
         'harness/rust/harness.rs (appended to a scratch copy of lib.rs: request parser and state printer) and harness/rust/main.rs',
